@@ -94,5 +94,12 @@ CHECKS["C09"] = dict(
     note="A3; GOMAXPROCS=1 cooperative hand-off through norace code, so the detector sees only the program's real synchronisation",
     parts=[dict(bin="vsched-race", part="c09", shards=16, budget=dict(quick=150, thorough=1500))])
 
+CHECKS["C10"] = dict(
+    level="model_checking", engine="xstate", design_ref="DESIGN.md §5 C10",
+    technique="explicit-state BFS to fixpoint on the real Rebalancer(RoundRobin) with scripted meters and a frozen clock; invariants per transition and bounded-liveness continuations from every reachable state",
+    text="Every reachable (membership, configured weights, effective weights, timer) state over rating vectors {0,0.4,1}^3, readiness, advances {backoff/2, backoff+eps}, Upsert/Remove with weights from the alphabet, back-off {1s,10s}: weights within [1,max(4096,configured)], adjustments at least one back-off apart, no outlier share increase, configured weights restored by every membership change; from every state a persistent outlier loses share within two back-off rounds unless all others are at the cap, and equal ratings restore configured proportions within six adjustments.",
+    note="scripted meters through the public RebalancerMeter option; rotation position projected out of the key; pools of <= 3 servers (A4)",
+    parts=[dict(bin="vh", part="c10", shards=16, gang=True, budget=dict(quick=90, thorough=1500))])
+
 NOT_APPLICABLE = [dict(property_id=p, reason="check not built yet in this revision (work in progress; see DESIGN.md for the plan)")
                   for p in ALL if p not in CHECKS]
